@@ -208,6 +208,7 @@ def check(ctx):
     rep.floor('R1', 'derivative instances', n, 50)
     _ufunc_table(ctx, rep)
     _power_operator(ctx, rep, model)
+    _block_derivatives(ctx, rep, model)
     return rep
 
 
@@ -299,3 +300,168 @@ def _power_operator(ctx, rep, model):
         except PyRaise as e:
             rep.violation('R4', cons, '%s: raises %s' % (tag, e.name),
                           ci.rel, m.lineno)
+
+
+# --------------------------------------------------------------------------
+# R6: block operators differentiate every block at the component of the
+# point that the block acts on
+PSO = 'odl/operator/pspace_ops.py'
+
+
+class BlockHooks(Hooks6):
+    def __init__(self):
+        Hooks6.__init__(self)
+        self.made = []
+
+    def on_call(self, interp, f, args, kwargs, node):
+        from ..symex import ClassV, Rec
+        if isinstance(f, ClassV) and f.ci.name in (
+                'COOMatrix', 'ProductSpaceOperator', 'BroadcastOperator',
+                'ReductionOperator', 'DiagonalOperator'):
+            r = Rec(f.ci.name, args=list(args), kwargs=dict(kwargs))
+            self.made.append(r)
+            return r
+        return Hooks6.on_call(self, interp, f, args, kwargs, node)
+
+    def on_getattr(self, interp, obj, name):
+        from ..symex import Rec
+        if isinstance(obj, Rec) and name in obj.attrs:
+            return obj.attrs[name]
+        return Hooks6.on_getattr(self, interp, obj, name)
+
+
+def _der_point(op):
+    """(base operator name, frozen point) of a derivative operator value."""
+    t = getattr(op, 'term', None)
+    if isinstance(t, vs.ODer):
+        return t.base.name, t.pt
+    return None
+
+
+def _block_derivatives(ctx, rep, model):
+    from ..symex import Rec, SArr, PVec
+    ci = model.get('ProductSpaceOperator')
+    if ci is None or 'derivative' not in ci.methods:
+        raise AnalysisError('anchor vanished: ProductSpaceOperator.derivative')
+
+    def setup():
+        h = BlockHooks()
+        I = Interp(model, {}, h)
+        X0, X1, Y0, Y1 = (SpaceV(n, 'R') for n in ('X0', 'X1', 'Y0', 'Y1'))
+        dom = SpaceV('X0xX1', 'R')
+        dom.parts = [X0, X1]
+        ran = SpaceV('Y0xY1', 'R')
+        ran.parts = [Y0, Y1]
+        x = PVec([Vec(vs.sym('x0'), X0), Vec(vs.sym('x1'), X1)], dom)
+        return h, I, (X0, X1, Y0, Y1), dom, ran, x
+
+    # ---- ProductSpaceOperator: blocks (row, col) -----------------------------
+    for layout, rows, cols in (('full 2x2', [0, 0, 1, 1], [0, 1, 0, 1]),
+                               ('upper right only', [0], [1]),
+                               ('lower left only', [1], [0]),
+                               ('unsorted', [1, 0, 1], [1, 1, 0])):
+        cons = 'ProductSpaceOperator.derivative[%s]' % layout
+        try:
+            h, I, (X0, X1, Y0, Y1), dom, ran, x = setup()
+            doms, rans = [X0, X1], [Y0, Y1]
+            ops = [I.opsym('A%d' % k, doms[c], rans[r], False)
+                   for k, (r, c) in enumerate(zip(rows, cols))]
+            inst = Inst(ci)
+            inst.attrs['_ProductSpaceOperator__ops'] = Rec(
+                'COOMatrix', data=list(ops), row=list(rows), col=list(cols),
+                shape=(2, 2))
+            inst.attrs['_Operator__domain'] = dom
+            inst.attrs['_Operator__range'] = ran
+            inst.attrs['_Operator__is_linear'] = False
+            inst.attrs['_Operator__is_functional'] = False
+            I.call(I.getattr_value(inst, 'derivative'), [x], {})
+            coo = [m for m in h.made if m.kind == 'COOMatrix']
+            pso = [m for m in h.made if m.kind == 'ProductSpaceOperator']
+            probs = []
+            if len(coo) != 1 or len(pso) != 1:
+                probs.append('%d matrices, %d block operators built'
+                             % (len(coo), len(pso)))
+            else:
+                data, indices, shape = (coo[0].attrs['args'] + [None] * 3)[:3]
+                data = data.items if isinstance(data, SArr) else list(data)
+                if list(indices[0]) != rows or list(indices[1]) != cols \
+                        or tuple(shape) != (2, 2):
+                    probs.append('block positions %r, shape %r'
+                                 % (indices, shape))
+                for k, d in enumerate(data):
+                    dp = _der_point(d)
+                    want = vs.freeze(x.parts[cols[k]].val)
+                    if dp is None or dp[0] != 'A%d' % k:
+                        probs.append('block %d is %r, not a derivative of '
+                                     'A%d' % (k, d, k))
+                    elif dp[1] != want:
+                        probs.append('block (%d, %d) is differentiated at '
+                                     '%s, it acts on component %d of the '
+                                     'point' % (rows[k], cols[k],
+                                                vs.show(vs.thaw(dp[1])),
+                                                cols[k]))
+                a = pso[0].attrs['args']
+                if len(a) < 3 or a[1] is not dom or a[2] is not ran:
+                    probs.append('domain / range of the derivative')
+            if probs:
+                rep.violation('R6', cons, '; '.join(probs[:2]), PSO,
+                              ci.methods['derivative'].lineno)
+            else:
+                rep.holds('R6', cons, 'every block differentiated at its '
+                          'column component')
+        except Undecided as e:
+            rep.undecided('R6', cons, str(e), PSO,
+                          ci.methods['derivative'].lineno)
+        except PyRaise as e:
+            rep.violation('R6', cons, 'raises %s' % e.name, PSO,
+                          ci.methods['derivative'].lineno)
+
+    # ---- Broadcast / Reduction ---------------------------------------------------
+    for cls, whole in (('BroadcastOperator', True),
+                       ('ReductionOperator', False)):
+        c2 = model.get(cls)
+        cons = '%s.derivative' % cls
+        try:
+            h, I, (X0, X1, Y0, Y1), dom, ran, x = setup()
+            if whole:
+                ops = [I.opsym('A%d' % k, X0, [Y0, Y1][k], False)
+                       for k in range(2)]
+                pt = Vec(vs.sym('x0'), X0)
+            else:
+                ops = [I.opsym('A%d' % k, [X0, X1][k], Y0, False)
+                       for k in range(2)]
+                pt = x
+            inst = Inst(c2)
+            inst.attrs['_%s__operators' % cls] = tuple(ops)
+            inst.attrs['_Operator__is_linear'] = False
+            I.call(I.getattr_value(inst, 'derivative'), [pt], {})
+            made = [m for m in h.made if m.kind == cls]
+            probs = []
+            if len(made) != 1:
+                probs.append('%d operators built' % len(made))
+            else:
+                args = made[0].attrs['args']
+                if len(args) != 2:
+                    probs.append('%d blocks' % len(args))
+                for k, d in enumerate(args):
+                    dp = _der_point(d)
+                    want = vs.freeze(pt.val if whole else x.parts[k].val)
+                    if dp is None or dp[0] != 'A%d' % k:
+                        probs.append('block %d is %r' % (k, d))
+                    elif dp[1] != want:
+                        probs.append('block %d differentiated at %s'
+                                     % (k, vs.show(vs.thaw(dp[1]))))
+            if probs:
+                rep.violation('R6', cons, '; '.join(probs[:2]), PSO,
+                              c2.methods['derivative'].lineno)
+            else:
+                rep.holds('R6', cons, 'blocks differentiated at %s'
+                          % ('the point' if whole else 'their components'))
+        except Undecided as e:
+            if 'expected a vector' in str(e):
+                rep.violation('R6', cons, 'a block is differentiated at a '
+                              'point outside its domain (%s)' % e, PSO)
+            else:
+                rep.undecided('R6', cons, str(e), PSO)
+        except PyRaise as e:
+            rep.violation('R6', cons, 'raises %s' % e.name, PSO)
